@@ -148,6 +148,11 @@ class HBatch(BatchBase):
             w.v("flush-active", "batch %s#%d still the active batch inside its flush body" % (self.kind, self.serial))
         lids = tuple(it.glid for it in self.items)
         w.flushes.append((self.kind, lids, w.sched_flushing is self))
+        if w.sched_flushing is not self and w.yield_only:
+            # nothing in this program calls item.value() / batch.value() itself: every flush must be a scheduler
+            # flush (chosen by priority, bracketed by the before/after events), not a side effect of unwrap()
+            w.v("flush-outside-scheduler", "batch %s#%d flushed outside a scheduler flush in a program whose tasks only yield"
+                % (self.kind, self.serial))
         if w.baton is not None:
             w.baton.point(w.tidx)
             for it in self.items:
@@ -302,6 +307,7 @@ class World(object):
                  chk_ctx=True, keep_scheduler=False, max_stack=None, inherit=None, lid_base=0, threaded=False, baton=None, tidx=0):
         self.prog = prog
         self.flushmodes = prog.flushmodes
+        self.yield_only = not (getattr(prog, "features", frozenset()) & {"iv", "bt"})
         self.prefix = prefix
         self.prio_mode = prio_mode
         self.conv = conv
